@@ -1,89 +1,165 @@
 -------------------------------- MODULE System --------------------------------
 (***************************************************************************)
 (* The library as one session-level state machine: the public API calls    *)
-(* are the actions, the objects a program holds (mappings, handles, cache  *)
-(* files, open frame iterators) are the state.  It composes the modules    *)
-(* that describe the parts:                                                *)
+(* are the actions, the objects a program holds (mapping values, handles,  *)
+(* cache files, open frame iterators) are the state.  What a call must     *)
+(* return is delegated to the data layer, a set of operators this module   *)
+(* takes as parameters:                                                    *)
 (*                                                                         *)
-(*   MappingSyntax / Index      bytes -> records -> declarative index      *)
-(*   Retrace / FrameIter        queries and iterator steps                 *)
-(*   CacheFormat / CacheContent what a written file must be                *)
+(*   trace validation (Trace_System) binds them to the specification's     *)
+(*     own definitions: MappingSyntax/Index (bytes -> index), Retrace and  *)
+(*     FrameIter (queries, iterator steps), MappingMeta (metadata folds),  *)
+(*     Uuid, Signature, TraceRemap, CacheFormat/CacheContent (what written *)
+(*     bytes must be);                                                     *)
+(*   model checking (MC_System) binds them to tokens and lets TLC          *)
+(*     enumerate every PROGRAM (sequence of calls with their object ids)   *)
+(*     up to a depth; the harness runs the programs against the library    *)
+(*     and the recorded runs come back through Trace_System.               *)
 (*                                                                         *)
-(* Objects are identified by small integers chosen by the program.         *)
+(* Objects are identified by small integers chosen by the program; a call  *)
+(* that stores its result under an id in use replaces the old object.      *)
 (*                                                                         *)
-(*   NewMapper(h, m, p)  ProguardMapper::new / new_with_param_mapping      *)
-(*   WriteCache(f, m)    ProguardCache::write into memory -> file f        *)
-(*   ParseCache(h, f)    ProguardCache::parse of file f -> handle h        *)
-(*   Query(h, q)         remap_class / remap_method / remap_frame (drained)*)
-(*                       / remap_throwable                                 *)
-(*   IterBegin(i, h, fr) remap_frame -> open iterator i                    *)
-(*   IterNext(i)         one next() call                                   *)
+(*   NewMapping(o, b)      ProguardMapping::new(b)                         *)
+(*   Section(o2, o, a, b)  ProguardMapping::section(a..b)                  *)
+(*   CloneMapping(o2, o)   Clone                                           *)
+(*   Meta(o, got)          is_valid / has_line_info / summary              *)
+(*   Uuid(o, got)          uuid                                            *)
+(*   NewMapper(h, o, p)    ProguardMapper::new / new_with_param_mapping    *)
+(*   WriteCache(f, o, w)   ProguardCache::write into memory -> file f      *)
+(*   WriteFail(o, k, ok)   ProguardCache::write into a sink failing at its *)
+(*                         k-th call (nothing is kept)                     *)
+(*   ParseCache(h, f)      ProguardCache::parse of file f -> handle h      *)
+(*   Query(h, q, got)      remap_class / remap_method / remap_frame        *)
+(*                         (drained) / remap_throwable                     *)
+(*   Sig(h, s, got)        deobfuscate_signature                           *)
+(*   Typed(h, t, got)      remap_stacktrace_typed                          *)
+(*   IterBegin(i, h, fr)   remap_frame -> open iterator i                  *)
+(*   IterNextCall(i, got)  one next() call                                 *)
 (*                                                                         *)
-(* What the machine guarantees (and Trace_System checks on recorded        *)
-(* programs): every handle answers from the mapping it was made of, no     *)
-(* matter what was created, written, parsed, queried or iterated in        *)
-(* between (no state leaks between objects or calls); every write of one   *)
-(* mapping yields the same well-formed bytes denoting that mapping's       *)
-(* index; iterators advance independently of each other.                   *)
+(* What the machine says: every answer is a function of the bytes of the   *)
+(* object asked (for a handle: of the mapping value it was made of), no    *)
+(* matter what was created, asked, written, failed, parsed or iterated in  *)
+(* between; every write of equal mapping bytes yields the same bytes;      *)
+(* iterators advance independently.  There is deliberately NO state        *)
+(* besides the objects: anything the library remembers between calls must  *)
+(* be unobservable.                                                        *)
 (***************************************************************************)
-EXTENDS Integers, Sequences, FiniteSets, CacheContent, FrameIter
+EXTENDS Integers, Sequences, FiniteSets
 
-CONSTANT Mappings       \* function: mapping id -> [blocks, indomain] (the declarative index of its bytes)
+CONSTANTS
+  SectionOf(_, _, _),   \* bytes, a, b -> bytes of the sub-mapping
+  RangeOk(_, _, _),     \* bytes, a, b -> the range is one section() accepts
+  IndexOf(_),           \* bytes -> the declarative index
+  InDomainOf(_),        \* bytes -> the statements' preconditions hold for these bytes
+  MetaOf(_),            \* bytes -> [is_valid, has_line_info, summary]
+  UuidOf(_),            \* bytes -> 16 bytes
+  AnswerOf(_, _, _),    \* index, query, with-parameter-index -> answer
+  SigOf(_, _),          \* index, descriptor -> <<>> or <<result>>
+  SigConstrained(_),    \* descriptor -> the statement says what the answer is
+  TypedOf(_, _),        \* index, levels -> levels
+  BeginOf(_, _, _),     \* index, frame, with-parameter-index -> iterator state
+  StepOf(_),            \* iterator state -> [yield, it]
+  WrittenOk(_, _)       \* mapping bytes, cache bytes -> well-formed and denoting the index
 
-VARIABLES handles,      \* handle id -> [kind, m, params] (absent ids map to <<>>)
-          files,        \* file id -> [m, bytes]
-          iters         \* iterator id -> FrameIter state with the handle it came from
-svars == <<handles, files, iters>>
+VARIABLES objs,         \* mapping id -> [bytes]
+          handles,      \* handle id -> [kind, index, indomain, params]
+          files,        \* file id -> [src, bytes]
+          iters         \* iterator id -> [h, it]
+svars == <<objs, handles, files, iters>>
 
 Ids == 1..8
 NoObj == <<>>
 
 SInit ==
+  /\ objs = [o \in Ids |-> NoObj]
   /\ handles = [h \in Ids |-> NoObj]
   /\ files = [f \in Ids |-> NoObj]
   /\ iters = [i \in Ids |-> NoObj]
 
-NewMapper(h, m, p) ==
-  /\ handles' = [handles EXCEPT ![h] = [kind |-> "mapper", m |-> m, params |-> p]]
-  /\ UNCHANGED <<files, iters>>
+NewMapping(o, bytes) ==
+  /\ objs' = [objs EXCEPT ![o] = [bytes |-> bytes]]
+  /\ UNCHANGED <<handles, files, iters>>
+
+Section(o2, o, a, b) ==
+  /\ objs[o] # NoObj /\ RangeOk(objs[o].bytes, a, b)
+  /\ objs' = [objs EXCEPT ![o2] = [bytes |-> SectionOf(objs[o].bytes, a, b)]]
+  /\ UNCHANGED <<handles, files, iters>>
+
+CloneMapping(o2, o) ==
+  /\ objs[o] # NoObj
+  /\ objs' = [objs EXCEPT ![o2] = objs[o]]
+  /\ UNCHANGED <<handles, files, iters>>
+
+Meta(o, got) ==
+  /\ objs[o] # NoObj
+  /\ got = MetaOf(objs[o].bytes)
+  /\ UNCHANGED svars
+
+Uuid(o, got) ==
+  /\ objs[o] # NoObj
+  /\ got = UuidOf(objs[o].bytes)
+  /\ UNCHANGED svars
+
+NewMapper(h, o, p) ==
+  /\ objs[o] # NoObj
+  /\ handles' = [handles EXCEPT ![h] = [kind |-> "mapper", index |-> IndexOf(objs[o].bytes),
+                                        indomain |-> InDomainOf(objs[o].bytes), params |-> p]]
+  /\ UNCHANGED <<objs, files, iters>>
 
 \* the bytes are an output of the call: any bytes that are well-formed, denote the mapping's index
-\* and equal what an earlier write of the same mapping produced
-WriteOk(m, bytes) ==
-  /\ Mappings[m].indomain => (WellFormed(bytes) /\ SameIndex(Content(bytes), Mappings[m].blocks))
-  /\ \A f \in Ids : (files[f] # NoObj /\ files[f].m = m) => files[f].bytes = bytes
+\* and equal what every earlier write of the same mapping bytes produced
+WriteCache(f, o, written) ==
+  /\ objs[o] # NoObj
+  /\ InDomainOf(objs[o].bytes) => WrittenOk(objs[o].bytes, written)
+  /\ \A g \in Ids : (files[g] # NoObj /\ files[g].src = objs[o].bytes) => files[g].bytes = written
+  /\ files' = [files EXCEPT ![f] = [src |-> objs[o].bytes, bytes |-> written]]
+  /\ UNCHANGED <<objs, handles, iters>>
 
-WriteCache(f, m, bytes) ==
-  /\ WriteOk(m, bytes)
-  /\ files' = [files EXCEPT ![f] = [m |-> m, bytes |-> bytes]]
-  /\ UNCHANGED <<handles, iters>>
+\* a write whose sink reports a failure at some call: it must report failure, and leaves no trace
+WriteFail(o, reportedOk) ==
+  /\ objs[o] # NoObj
+  /\ ~reportedOk
+  /\ UNCHANGED svars
 
 ParseCache(h, f) ==
   /\ files[f] # NoObj
-  /\ handles' = [handles EXCEPT ![h] = [kind |-> "cache", m |-> files[f].m, params |-> TRUE]]
-  /\ UNCHANGED <<files, iters>>
-
-\* the answer a handle must give
-AnswerOf(h, q) == Answer(Mappings[handles[h].m].blocks, q, handles[h].params)
-Constrained(h) == Mappings[handles[h].m].indomain
+  /\ handles' = [handles EXCEPT ![h] = [kind |-> "cache", index |-> IndexOf(files[f].src),
+                                        indomain |-> InDomainOf(files[f].src), params |-> TRUE]]
+  /\ UNCHANGED <<objs, files, iters>>
 
 Query(h, q, got) ==
   /\ handles[h] # NoObj
-  /\ Constrained(h) => got = AnswerOf(h, q)
+  /\ handles[h].indomain => got = AnswerOf(handles[h].index, q, handles[h].params)
+  /\ UNCHANGED svars
+
+Sig(h, s, got) ==
+  /\ handles[h] # NoObj
+  /\ (handles[h].indomain /\ SigConstrained(s)) => got = SigOf(handles[h].index, s)
+  /\ UNCHANGED svars
+
+Typed(h, levels, got) ==
+  /\ handles[h] # NoObj
+  /\ handles[h].indomain => got = TypedOf(handles[h].index, levels)
   /\ UNCHANGED svars
 
 IterBegin(i, h, frame) ==
   /\ handles[h] # NoObj
-  /\ iters' = [iters EXCEPT ![i] = [h |-> h, it |-> Begin(Mappings[handles[h].m].blocks, frame, handles[h].params)]]
-  /\ UNCHANGED <<handles, files>>
+  /\ iters' = [iters EXCEPT ![i] = [h |-> h, constrained |-> handles[h].indomain,
+                                    it |-> BeginOf(handles[h].index, frame, handles[h].params)]]
+  /\ UNCHANGED <<objs, handles, files>>
 
+\* the iterator keeps working (and keeps answering from the handle it was taken from) even when the
+\* handle id has been reused since: it borrowed the old handle
 IterNextCall(i, got) ==
   /\ iters[i] # NoObj
-  /\ LET r == IterNext(iters[i].it) IN
-     /\ Constrained(iters[i].h) => got = r.yield
-     /\ iters' = [iters EXCEPT ![i] = [h |-> iters[i].h, it |-> r.it]]
-  /\ UNCHANGED <<handles, files>>
+  /\ LET r == StepOf(iters[i].it) IN
+     /\ iters[i].constrained => got = r.yield
+     /\ iters' = [iters EXCEPT ![i] = [iters[i] EXCEPT !.it = r.it]]
+  /\ UNCHANGED <<objs, handles, files>>
 
-\* handles are immutable once created: nothing but NewMapper / ParseCache on the same id changes one
-HandlesStable == [][\A h \in Ids : (handles[h] # NoObj /\ handles'[h] # handles[h]) => handles'[h] # NoObj]_svars
+Reset ==
+  /\ objs' = [o \in Ids |-> NoObj]
+  /\ handles' = [h \in Ids |-> NoObj]
+  /\ files' = [f \in Ids |-> NoObj]
+  /\ iters' = [i \in Ids |-> NoObj]
 =============================================================================
